@@ -157,6 +157,8 @@ func runCase(c Case) (*ev.Failure, bool) {
 	var mu sync.Mutex
 	got := map[uint32][]uint32{} // domain -> delivered sequence numbers, in delivery order
 	var bad *ev.Failure
+	var lastCount int64
+	counterStuck := false
 	consumerStop := make(chan struct{})
 	consumerDone := make(chan struct{})
 	go func() {
@@ -164,11 +166,31 @@ func runCase(c Case) (*ev.Failure, bool) {
 		for {
 			select {
 			case m := <-cp.GetMsgChan():
+				// a consumer that keeps statistics reads the collector's counter as it goes
+				n := lastCount
+				if !counterStuck {
+					nc := make(chan int64, 1)
+					go func() { nc <- cp.GetNumRecordsReceived() }()
+					select {
+					case n = <-nc:
+					case <-time.After(10 * time.Second):
+						counterStuck = true
+						mu.Lock()
+						if bad == nil {
+							bad = ev.Failf("GetNumRecordsReceived(), called by the consumer between two receives, did not return within 10 s")
+						}
+						mu.Unlock()
+					}
+				}
 				mu.Lock()
 				got[m.GetObsDomainID()] = append(got[m.GetObsDomainID()], m.GetSequenceNum())
 				if bad == nil {
 					bad = checkContent(m)
 				}
+				if bad == nil && n < lastCount {
+					bad = ev.Failf("GetNumRecordsReceived() went from %d to %d", lastCount, n)
+				}
+				lastCount = n
 				mu.Unlock()
 			case <-consumerStop:
 				return
